@@ -12,6 +12,7 @@ import (
 	banktypes "github.com/cosmos/cosmos-sdk/x/bank/types"
 
 	"jkverif/chain"
+	"jkverif/gen"
 
 	storagetypes "github.com/jackalLabs/canine-chain/v4/x/storage/types"
 )
@@ -43,7 +44,7 @@ func init() {
 func runC15(rc *RunCtx) {
 	pool := []int64{2, 3, 1000, 12345, 999_999, 5_000_000, 10_000_000_000}
 	price := rc.Pick(pool)
-	sp := storageParams(50, 100, 1024)
+	sp := storageParams(4, 4, 1024)
 	sp.CollateralPrice = price
 	gov := rc.Chance(0.6)
 	const nAcc = 5
@@ -250,6 +251,8 @@ func runC15(rc *RunCtx) {
 	}
 
 	steps := 14 + rc.Intn(32)
+	stipendMoved := false
+	lapsed := false
 	govLeft := 0
 	if gov {
 		govLeft = 1 + rc.Intn(3)
@@ -286,6 +289,43 @@ func runC15(rc *RunCtx) {
 		op := rc.Intn(100)
 		i := players[rc.Intn(len(players))]
 		a := c.Accs[i].Bech
+		if !lapsed && isProv[a] && rc.Chance(0.1) {
+			// the provider takes on three files, proves each once and then never again: the reward blocks drop it from all
+			// three and count three burned contracts against it. Its collateral stays locked and recorded all the same.
+			lapsed = true
+			sw := &SW{rc: rc, c: c}
+			if r := sw.BuyPlan(0, 0, 5_000_000_000, 60, ""); !r.OK() {
+				rc.Logf("plan for the lapse scenario refused: %s", trunc(r.Log, 120))
+				continue
+			}
+			n := 0
+			for k := 0; k < 3; k++ {
+				f := gen.NewFile(randBytes(rc.Rng, int64(1+rc.Intn(2000))), 1024)
+				if wf, r := sw.PostFile(0, f, 1, 0, -1); r.OK() {
+					var pr ProofResult
+					if upper[a] {
+						pr = sw.ProveHonestUpper(i, wf)
+					} else {
+						pr = sw.ProveHonest(i, wf)
+					}
+					if pr.Success {
+						n++
+					}
+				}
+			}
+			rc.Logf("step %d h=%d acc%d proves %d files once and goes silent", s, c.Height, i, n)
+			rc.Count("providers_that_let_three_contracts_burn", 1)
+			for b := 0; b < 14; b++ {
+				if _, err := c.NextBlock(dur(6)); err != nil {
+					rc.Abort("block: " + err.Error())
+					return
+				}
+				if !check(fmt.Sprintf("BeginBlock h=%d (lapse scenario)", c.Height)) {
+					return
+				}
+			}
+			continue
+		}
 		switch {
 		case op < 34: // init
 			pre := c.Snapshot()
@@ -432,6 +472,26 @@ func runC15(rc *RunCtx) {
 				return
 			}
 		default: // governance change of the price
+			if !stipendMoved && rc.Chance(0.25) {
+				// governance points the mint module's storage stipend at the collateral escrow account (its validator accepts
+				// any string): a module account is not a valid receiver, so nothing may arrive there
+				stipendMoved = true
+				govLeft--
+				rc.Logf("step %d h=%d governance: jklmint StorageStipend -> collateral escrow", s, c.Height)
+				if err := c.ParamChange("jklmint", "StorageStipend", fmt.Sprintf(`"%s"`, escrow)); err != nil {
+					if pe, ok := err.(*chain.PanicError); ok {
+						rc.Abort("block panic during governance: " + pe.Value)
+						return
+					}
+					rc.Logf("  not applied: %v", err)
+				} else {
+					rc.Count("stipend_pointed_at_escrow", 1)
+				}
+				if !check(fmt.Sprintf("governance StorageStipend -> escrow, h=%d", c.Height)) {
+					return
+				}
+				continue
+			}
 			np := rc.Pick(pool)
 			if rc.Chance(0.3) {
 				np = price + rc.Pick([]int64{-1, 1, 1000, -1000})
